@@ -205,6 +205,33 @@ def c06(run):
     run.exhaustive = True
 
 
+def tv_lexer(run, stage, n, seed_off=0):
+    """TV of the streaming lexer: recorded lexer events of real ParseFile runs vs the L2 machine BclLexer on the same chunks."""
+    import os, re
+    batch = os.path.join(run.scratch, stage.replace(":", "_") + ".ndjson")
+    s = run.vh(["drive-lex", "--n", str(n), "--seed", str(run.seed * 10 + seed_off), "--out", batch], stage + ":drive")
+    run.traces -= s.get("judged", 0)
+    r = run.tlc("Trace_Lexer", cfg(constants=dict(Faithful=False), invariants=("Tally",)), workers=1,
+                files={"lexruns.ndjson": "@" + batch}, label=stage + ":tlc", timeout=1800)
+    if not r["ok"]:
+        raise Inconclusive("Trace_Lexer failed: %s" % r.get("violated"))
+    lines = open(batch).read().splitlines()
+    tally = {}
+    for m in re.finditer(r'<<"VERDICT", (\d+), "([a-z-]+)">>', r["text"]):
+        k, v = int(m.group(1)), m.group(2)
+        tally[v] = tally.get(v, 0) + 1
+        if v != "ok" and sum(1 for x in run.violations if x.get("shape") == "lexer:" + v) < 4:
+            rec = json.loads(lines[k - 1])
+            run.violations.append(dict(why="the recorded run of the streaming lexer is not a run of the lexer machine on the same chunks: " + v, shape="lexer:" + v,
+                                       case=dict(fam="lexrun", src=rec.get("src"), chunks=rec.get("chunks")),
+                                       observed=dict(toks=rec.get("toks"), recvs=rec.get("recvs"), lfs=rec.get("lfs")), confirmed=True, stage=stage))
+    if not tally:
+        raise Inconclusive("Trace_Lexer judged nothing")
+    run.traces += tally.get("ok", 0)
+    run.extra.setdefault("lexer_runs", {})[stage] = tally
+    return tally
+
+
 # ------------------------------------------------------------------------------------------------ C07
 ALPHA18 = "{97, 49, 48, 120, 46, 101, 34, 92, 61, 33, 45, 62, 32, 10, 35, 194, 160, 36}"
 
@@ -220,11 +247,13 @@ def c07(run):
                 "GEN: every concatenation of N lexemes from a 33-lexeme pool of boundary-relevant spellings (N=2 quick, 3 thorough) x every set of <= 2 cut points "
                 "x a zero-byte read before chunk 0/1/2 x last chunk with/without EOF, and every lexeme pair behind a comment line placing the real 4096-byte page "
                 "boundary at every offset; ParseFile through a scripted FileInput must equal Parse on the whole input in error, diagnostics and dump bytes. "
-                "Non-trivial = at least one cut (or a page boundary) ; distinct by case.")
+                "TV: the lexer goroutine's recorded events (chunks received, offsets given to the line table, tokens emitted) of ParseFile on random sources in random small reads "
+                "are judged by Trace_Lexer against the machine run on the same chunks. Non-trivial = at least one cut (or a page boundary) ; distinct by case.")
     mc_chunks(run, 3 if run.quick else 4)
     run.gen_replay("Gen_Chunks", cfg(constants=dict(Faithful=False, Scope="cuts", NLex=2 if run.quick else 3), invariants=("EmitCase", "Agree")),
                    ["replay-chunks"], "C07:cuts")
     run.gen_replay("Gen_Chunks", cfg(constants=dict(Faithful=False, Scope="page", NLex=2), invariants=("EmitCase",)), ["replay-chunks"], "C07:page")
+    tv_lexer(run, "C07:lexer", 600 if run.quick else 6000)
     run.exhaustive = True
 
 
